@@ -23,6 +23,7 @@ from Bio.SeqRecord import SeqRecord
 from gffutils.feature import Feature
 from gffutils.interface import FeatureDB
 from inscripta.biocantor.gene import CDSInterval, CDSPhase, Biotype
+from inscripta.biocantor.gene.biotype import UNKNOWN_BIOTYPE
 from inscripta.biocantor.location import CompoundInterval
 from inscripta.biocantor.io.exc import DuplicateSequenceException, InvalidInputError
 from inscripta.biocantor.io.gff3.constants import (
@@ -203,9 +204,12 @@ def _parse_genes(chrom: str, db: FeatureDB) -> List[Dict]:
             transcript_qualifiers = {
                 x: y for x, y in transcript.attributes.items() if not BioCantorGFF3ReservedQualifiers.has_value(x)
             }
-            provided_transcript_biotype = gene_or_feature.attributes.get(
-                "transcript_biotype", [gene_or_feature.attributes.get("transcript_type", None)]
+            provided_transcript_biotype = transcript.attributes.get(
+                "transcript_biotype", transcript.attributes.get("transcript_type", [None])
             )[0]
+            # the GFF3 writer emits this placeholder for transcripts without a biotype
+            if provided_transcript_biotype == UNKNOWN_BIOTYPE:
+                provided_transcript_biotype = None
 
             if Biotype.has_name(provided_transcript_biotype):
                 transcript_biotype = Biotype[provided_transcript_biotype]
